@@ -132,6 +132,9 @@ func (l *lexer) Lex(lval *yySymType) int {
 }
 
 func (l *lexer) Error(s string) {
+	if l.err != nil {
+		return // keep the first, more specific error (the parser reports "syntax error" after it)
+	}
 	l.err = fmt.Errorf("%v %v", l.s.Position, s)
 }
 
